@@ -24,6 +24,7 @@ class RecPool(Pool):
         self.clock = clock
         self.writes = 0
         self.on_write = None
+        self.refuse_next = None  # an exception: the next demand write is refused with it and changes nothing
 
     def _rec(self, kind, attr, value):
         if self.max_log is not None and len(self.log) >= self.max_log:
@@ -45,6 +46,9 @@ class RecPool(Pool):
 
     @demand.setter
     def demand(self, value):
+        if self.refuse_next is not None:
+            refusal, self.refuse_next = self.refuse_next, None
+            raise refusal
         self._rec("w", "demand", value)
         self.writes += 1
         self._demand = value
